@@ -138,9 +138,11 @@ pub trait Case {
     fn n_borrows(_x: &Self::T) -> usize {
         0
     }
-    /// Bytes an ε-copy deserialization of `x` may allocate: the deep-copy
-    /// skeleton and the fields that are by design fully copied — never a
-    /// function of the lengths of the borrowed sequences.
+    /// Digest of what an ε-copy deserialization of `x` legitimately allocates
+    /// for: the deep-copy skeleton (lengths of deep sequences) and the fields
+    /// that are by design fully copied (their lengths, the variant that holds
+    /// them).  Two values with the same digest differ only in the lengths and
+    /// contents of the parts that are returned as borrowed slices.
     fn eps_alloc_bytes(_x: &Self::T) -> usize {
         0
     }
@@ -265,35 +267,48 @@ pub fn eps_borrows<C: Case, const PRE: usize, const N: usize, const S: usize>() 
     }
 }
 
-/// C03 (allocation sub-claim): the bytes allocated during ε-copy
-/// deserialization equal the skeleton/full-copied-field amount the case
-/// prescribes, whatever the borrowed lengths are.
-pub fn eps_alloc<C: Case, const PRE: usize, const N: usize, const S: usize>() {
-    let x = C::make(S);
+/// C03 (allocation sub-claim): two symbolic values of the same type whose
+/// deep-copy skeleton and fully copied fields agree (same `eps_alloc_bytes`
+/// digest; shapes S1, S2) but whose borrowed sequences differ in length and
+/// content cause exactly the same number of allocated bytes and allocator
+/// calls during ε-copy deserialization (`std::alloc::alloc` is stubbed by a
+/// counter through which every Vec/Box allocation passes).
+pub fn eps_alloc<C: Case, const PRE: usize, const N: usize, const S1: usize, const S2: usize>() {
+    let x1 = C::make(S1);
+    let x2 = C::make(S2);
+    assume(C::eps_alloc_bytes(&x1) == C::eps_alloc_bytes(&x2));
+    let (b1, c1) = eps_alloc_one::<C, PRE, N>(&x1);
+    let (b2, c2) = eps_alloc_one::<C, PRE, N>(&x2);
+    crate::cover!(true, "two runs compared");
+    assert!(b1 == b2 && c1 == c2, "C03: memory allocated by eps deserialization depends on the lengths of the borrowed sequences");
+    // The two inputs are the harness's own values.  Under CBMC they are not
+    // dropped: with `alloc` stubbed, the drop of a harness-built `Vec<Vec<_>>`
+    // with an empty inner vector fails `__rust_dealloc`'s checks spuriously
+    // (DESIGN §7b).  Natively (replay, Miri) they are dropped as usual.
+    #[cfg(kani)]
+    { core::mem::forget(x1); core::mem::forget(x2); }
+}
+fn eps_alloc_one<C: Case, const PRE: usize, const N: usize>(x: &C::T) -> (usize, usize) {
     let mut s = Sink::<N>::new();
     let n;
     {
         let mut w = WriterWithPos::new(&mut s);
         prefix::<PRE>(&mut w);
-        let r = SerializeInner::_serialize_inner(&x, &mut w);
+        let r = SerializeInner::_serialize_inner(x, &mut w);
         assert!(r.is_ok(), "C03: serialization succeeds");
         n = w.pos();
     }
     let mut al = Al::<N>::zero();
     al.0 = s.buf;
-    let expect = C::eps_alloc_bytes(&x);
     let mut sl = SliceWithPos { data: &al.0[PRE..n], pos: PRE };
     alloc_reset();
     let e = <C::T>::_deserialize_eps_inner(&mut sl);
-    let got = alloc_bytes();
+    let got = (alloc_bytes(), unsafe { ALLOC_CALLS });
     match e {
-        Ok(e) => {
-            crate::cover!(true, "eps Ok reached");
-            assert!(got == expect, "C03: memory allocated by eps deserialization depends on borrowed lengths / exceeds the skeleton and fully copied fields");
-            core::mem::forget(e);
-        }
+        Ok(e) => { drop(e); }
         Err(er) => { core::mem::forget(er); assert!(false, "C03: eps deserialization of an aligned buffer succeeds"); }
     }
+    got
 }
 
 /// C07 (c): units, zero padding, minimal gaps, exact byte counts, for one
